@@ -198,19 +198,26 @@ pub fn replay_main(args: &[String]) -> i32 {
         }));
     }
     drop(ftx);
-    // failure printer
+    // failure printer: at most 50 000 per category (reason + first filter / statement kind), counts for all
     let printer = std::thread::spawn(move || {
         let stdout = std::io::stdout();
-        let mut n = 0u64;
+        let mut cats: std::collections::BTreeMap<String, u64> = std::collections::BTreeMap::new();
         for (rec, detail) in frx {
-            n += 1;
-            if n <= 2000 {
-                let recj: J = serde_json::from_str(&rec).unwrap_or(J::String(rec));
+            let recj: J = serde_json::from_str(&rec).unwrap_or(J::String(rec));
+            let why = detail.get("why").and_then(|w| w.as_str()).unwrap_or("?");
+            let what = recj.get("chain").and_then(|c| c.get(0)).and_then(|f| f.get("n")).and_then(|n| n.as_str())
+                .or_else(|| recj.get("f").and_then(|n| n.as_str()))
+                .or_else(|| recj.get("fam").and_then(|n| n.as_str()))
+                .unwrap_or("");
+            let key = format!("{why} [{what}]");
+            let n = cats.entry(key).or_insert(0);
+            *n += 1;
+            if *n <= 50_000 {
                 let mut o = stdout.lock();
                 let _ = writeln!(o, "FAIL {}", json!({"rec": recj, "detail": detail}));
             }
         }
-        n
+        cats
     });
     let stdin = std::io::stdin();
     let mut batch = Vec::with_capacity(BATCH);
@@ -248,7 +255,7 @@ pub fn replay_main(args: &[String]) -> i32 {
     for h in handles {
         let _ = h.join();
     }
-    let _ = printer.join();
+    let cats = printer.join().unwrap_or_default();
     let t = totals.lock().unwrap();
     let samples: Vec<J> = samples
         .iter()
@@ -257,7 +264,7 @@ pub fn replay_main(args: &[String]) -> i32 {
     println!(
         "SUMMARY {}",
         json!({"records": t.total, "distinct": seen.len(), "nontrivial": t.nontrivial,
-               "fails": t.fails, "crashes": t.crashes, "samples": samples})
+               "fails": t.fails, "crashes": t.crashes, "fail_categories": cats, "samples": samples})
     );
     0
 }
